@@ -169,9 +169,9 @@ def run_check(prop: str, tier: str) -> int:
             cfg2 = dict(cfg, memo_size="shipped")
             ops2 = [o for o in ops if o["op"] != "memo_resize"]
             r2 = core.replay_ops(cls, prop, tier, cfg2, ops2)
-            if core.same_class(r2["failure"], f):
+            if core.same_class(r2.get("failure"), f):
                 cfg, ops = cfg2, ops2
-                r = dict(r, cfg=cfg2, ops=ops2, failure=r2["failure"])
+                r = dict(r, cfg=cfg2, ops=ops2, failure=r2.get("failure"))
                 f = r["failure"]
             else:
                 knob_only += 1
@@ -179,11 +179,11 @@ def run_check(prop: str, tier: str) -> int:
                 continue
         ops_min = core.shrink(cls, prop, tier, cfg, ops, f)
         rmin = core.replay_ops(cls, prop, tier, cfg, ops_min)
-        if not core.same_class(rmin["failure"], f):
+        if not core.same_class(rmin.get("failure"), f):
             ops_min = ops[: f["step"] + 1]
             rmin = core.replay_ops(cls, prop, tier, cfg, ops_min)
         rr = dict(r)
-        rr["failure"] = rmin["failure"] or f
+        rr["failure"] = rmin.get("failure") or f
         path = core.write_replay(prop, cls, tier, rr, ops_min, verif_seed, reported)
         code, out = core.replay_file_fresh(path)
         if code != 1 or f"VIOLATION property={prop}" not in out:
